@@ -2,8 +2,11 @@ package main
 
 import (
 	"fmt"
+	"github.com/taskctl/taskctl/pkg/scheduler"
+	"github.com/taskctl/taskctl/pkg/task"
 	"math/rand"
 	"strings"
+	"time"
 )
 
 func init() {
@@ -408,6 +411,11 @@ func runSched(col *Collector, focus, tier string, seed int64) {
 			ntight++
 		}
 	}
+	if focus == "C02" || focus == "C03" {
+		for k := 0; k < 6; k++ {
+			sharedNestedCase(col, focus, k%2 == 0)
+		}
+	}
 	parallel(len(plans), 16, func(i int) {
 		t := tags[i]
 		if plans[i].tight {
@@ -484,4 +492,105 @@ func runC03Contexts(col *Collector, tier string, seed int64) {
 		}
 		col.Add(cs)
 	})
+}
+
+// one pipeline included by TWO stages of an outer pipeline (the same graph object, as internal/config builds it):
+// the inner stage x fails; A includes P; B includes P too but waits for the task stage C; D waits for B.
+// Whatever the order in which x and C finish, A and B fail, D is cancelled, x runs once, the run reports an error.
+func sharedNestedCase(col *Collector, focus string, xFirst bool) {
+	cs := Case{Replay: fmt.Sprintf("shared nested pipeline: P=[x fails]; A=pipeline P, C=task, B=pipeline P after C, D after B; x finishes first=%v", xFirst),
+		Tags: []string{"nested", "nested-included-twice"}, NonTrivial: true}
+	mk := func(n string) *task.Task { t := task.NewTask(); t.Name = n; return t }
+	p, err := scheduler.NewExecutionGraph(&scheduler.Stage{Name: "x", Task: mk("x")})
+	if err != nil {
+		cs.Fail, cs.Sig = err.Error(), "sched-setup"
+		col.Add(cs)
+		return
+	}
+	a := &scheduler.Stage{Name: "A", Pipeline: p}
+	c := &scheduler.Stage{Name: "C", Task: mk("c")}
+	b := &scheduler.Stage{Name: "B", Pipeline: p, DependsOn: []string{"C"}}
+	d := &scheduler.Stage{Name: "D", Task: mk("d"), DependsOn: []string{"B"}}
+	g, err := scheduler.NewExecutionGraph(a, c, b, d)
+	if err != nil {
+		cs.Fail, cs.Sig = err.Error(), "sched-setup"
+		col.Add(cs)
+		return
+	}
+	r := newCtlRunner()
+	sd := scheduler.NewScheduler(r)
+	sd.VerifSetPause(schedPause)
+	done := make(chan error, 1)
+	go func() { done <- sd.Schedule(g) }()
+	waitFor := func(cond func() bool) bool {
+		deadline := time.Now().Add(3 * time.Second)
+		for !cond() {
+			if time.Now().After(deadline) {
+				return false
+			}
+			time.Sleep(time.Millisecond)
+		}
+		return true
+	}
+	has := func(names ...string) func() bool {
+		return func() bool {
+			in := r.inflight()
+			for _, n := range names {
+				if !contains(in, n) {
+					return false
+				}
+			}
+			return true
+		}
+	}
+	ok := waitFor(has("x", "c"))
+	if xFirst {
+		r.releaseTask("x", false)
+		ok = ok && waitFor(func() bool { return a.ReadStatus() == scheduler.StatusError })
+		r.releaseTask("c", true)
+	} else {
+		r.releaseTask("c", true)
+		ok = ok && waitFor(func() bool { return b.ReadStatus() == scheduler.StatusRunning })
+		time.Sleep(5 * time.Millisecond)
+		r.releaseTask("x", false)
+	}
+	var serr error
+	returned := false
+	deadline := time.After(5 * time.Second)
+wait:
+	for {
+		select {
+		case serr = <-done:
+			returned = true
+			break wait
+		case <-deadline:
+			r.Cancel()
+			break wait
+		case <-time.After(time.Millisecond):
+			r.releaseTask("d", true) // should D be started (it must not), let it finish
+		}
+	}
+	r.mu.Lock()
+	xs, ds := r.entered["x"], r.entered["d"]
+	r.mu.Unlock()
+	cs.Impl = fmt.Sprintf("A=%d B=%d C=%d D=%d err=%v x-runs=%d d-runs=%d", a.ReadStatus(), b.ReadStatus(), c.ReadStatus(), d.ReadStatus(), serr != nil, xs, ds)
+	want := fmt.Sprintf("A=%d B=%d C=%d D=%d err=true x-runs=1 d-runs=0", scheduler.StatusError, scheduler.StatusError, scheduler.StatusDone, scheduler.StatusCanceled)
+	switch {
+	case !ok:
+		cs.Fail, cs.Sig = "the expected stages did not start: "+cs.Impl, "sched-setup"
+	case !returned:
+		if focus == "C03" {
+			cs.Fail, cs.Sig = "Schedule did not return within 5s", "c03-no-return"
+		}
+	case cs.Impl != want:
+		switch focus {
+		case "C02":
+			cs.Fail, cs.Sig = fmt.Sprintf("final statuses %s, the graph and the outcomes determine %s", cs.Impl, want), "c02-final-status"
+		case "C03":
+			if xs != 1 || ds != 0 {
+				cs.Fail, cs.Sig = fmt.Sprintf("run counts %s, expected %s", cs.Impl, want), "c03-run-count"
+			}
+		}
+	}
+	col.Add(cs)
 }
